@@ -25,7 +25,7 @@ import (
 // Exclusion tag of the known finding "blockBeginner reads proposals and the fee option through
 // store singletons a CheckTx left aimed at the check state": while it is open, no governance
 // transaction is checked between a Commit and the next BeginBlock.
-const exclGov = "C07:gov-checktx-before-begin"
+const exclGov = "C07:stale-gov-check-state-at-begin"
 
 func TestMain(m *testing.M) {
 	run.Quiet()
@@ -120,7 +120,13 @@ func execute(h *run.H, tr *hist.Trace, draw func(w *hist.World) ([]hist.Step, []
 		return &outcome{"init", "", d}, st
 	}
 	pos := 0
-	govNext := false // an accepted governance CheckTx after the previous Commit
+	// Which state object do the application's store singletons point at? Every CheckTx aims them
+	// at the current check state, every DeliverTx / EndBlock at the deliver state; Commit replaces
+	// the check state object but re-aims nothing. curGov records whether the current check state
+	// object holds accepted governance writes, aimed is the flag of the object the singletons
+	// point at (nil = a deliver state). Used only to classify a divergence.
+	curGov := new(bool)
+	var aimed *bool
 	for {
 		var steps []hist.Step
 		var txs []txgen.Tx
@@ -157,13 +163,14 @@ func execute(h *run.H, tr *hist.Trace, draw func(w *hist.World) ([]hist.Step, []
 		}
 		b := w.C.MakeBlock(*blk.Spec)
 		ntx := len(b.Txs)
-		govWindow := govNext
-		govNext = false
 		doChecks := func(at string) bool {
 			for _, c := range inj[at] {
 				r := checked.CheckTx(c.Tx)
 				if checked.Panicked {
 					return false
+				}
+				if !strings.HasPrefix(r.Log, "checkTx duplicated") {
+					aimed = curGov
 				}
 				debugf("h=%d check %s %s code=%d gas=%d log=%.150s events=%d\n", b.Height, at, c.TxKind, r.Code, r.GasUsed, r.Log, len(r.Events))
 				st.checks++
@@ -178,12 +185,7 @@ func execute(h *run.H, tr *hist.Trace, draw func(w *hist.World) ([]hist.Step, []
 						}
 					}
 					if isGovKind(c.TxKind) {
-						switch at {
-						case "before-begin":
-							govWindow = true
-						case "after-commit":
-							govNext = true
-						}
+						*curGov = true
 					}
 				} else {
 					st.feats["rejected@"+bc]++
@@ -198,10 +200,12 @@ func execute(h *run.H, tr *hist.Trace, draw func(w *hist.World) ([]hist.Step, []
 		if !doChecks("before-begin") {
 			return panicked("CheckTx before-begin"), st
 		}
+		staleGov := aimed != nil && *aimed
 		res.Begin = checked.BeginBlock(b)
 		if checked.Panicked {
 			return panicked("BeginBlock"), st
 		}
+		aimed = nil
 		if !doChecks("after-begin") {
 			return panicked("CheckTx after-begin"), st
 		}
@@ -210,6 +214,7 @@ func execute(h *run.H, tr *hist.Trace, draw func(w *hist.World) ([]hist.Step, []
 			if checked.Panicked {
 				return panicked("DeliverTx"), st
 			}
+			aimed = nil
 			res.Deliver = append(res.Deliver, d)
 			res.Txs = append(res.Txs, sim.TxRes{Code: d.Code, Data: d.Data, GasWanted: d.GasWanted, GasUsed: d.GasUsed, Log: d.Log})
 			if !doChecks(fmt.Sprintf("after-tx:%d", k)) {
@@ -221,6 +226,7 @@ func execute(h *run.H, tr *hist.Trace, draw func(w *hist.World) ([]hist.Step, []
 			return panicked("EndBlock"), st
 		}
 		res.Updates = res.End.ValidatorUpdates
+		aimed = nil
 		if !doChecks("after-end") {
 			return panicked("CheckTx after-end"), st
 		}
@@ -229,11 +235,11 @@ func execute(h *run.H, tr *hist.Trace, draw func(w *hist.World) ([]hist.Step, []
 			return panicked("Commit"), st
 		}
 		res.AppHash = cm.Data
+		curGov = new(bool) // fresh check state object
 		checked.IndexBlock(b, res.Deliver)
 		if !doChecks("after-commit") {
 			return panicked("CheckTx after-commit"), st
 		}
-		govBefore := govWindow
 
 		ref := plain.RunBlock(b)
 		if plain.Panicked {
@@ -248,8 +254,8 @@ func execute(h *run.H, tr *hist.Trace, draw func(w *hist.World) ([]hist.Step, []
 		st.blocks++
 		if d := sim.CompareBlockRes(ref, res); d != "" {
 			class := "other"
-			if govBefore {
-				class = "gov-checktx-before-begin"
+			if staleGov {
+				class = "stale-gov-check-state-at-begin"
 			}
 			diff := sim.DiffDumps(plain.DumpMap(), checked.DumpMap())
 			if len(diff) > 8 {
